@@ -23,7 +23,7 @@ LEVEL = META['level']
 RULE = ('a case = one request with its before/after snapshots (and, for accepted writes, the read-backs); distinct by (configuration, request bytes, position); '
         'non-trivial = the request was refused with the state compared, or accepted with the read-back compared')
 ASSUMPTIONS = ['reply budget 488 bytes', 'in-process sessions are distinguished by peer address, as the simulator does']
-REQUIRED = ['refused:range', 'refused:type', 'refused:unknown', 'refused:extreme-value', 'accepted:write', 'monitor:snapshot-equal', 'monitor:readback-same-session',
+REQUIRED = ['type-matrix:pairs', 'refused:range', 'refused:type', 'refused:unknown', 'refused:extreme-value', 'accepted:write', 'monitor:snapshot-equal', 'monitor:readback-same-session',
             'monitor:readback-fresh-session', 'monitor:sweep', 'bound:index==len', 'bound:count==0', 'bound:index+count==len+1', 'pair:allowed-narrower', 'pair:disallowed',
             'tcp:histories', 'tcp:other-session-still-served', 'code:0x2105', 'code:0x2107', 'code:0x05']
 TIMEOUT = {'quick': 300, 'thorough': 2400}
@@ -188,7 +188,7 @@ def read_all(ctx, sess, model, cfg, wit, which='main'):
     return True
 
 
-def run_history(ctx, cfg, nreq, tcp):
+def run_history(ctx, cfg, nreq, tcp, script=None):
     from vlib import reqgen, refcodec as rc, arraymodel, simcheck
     rng = ctx.rng
     model = arraymodel.Model(cfg)
@@ -200,7 +200,9 @@ def run_history(ctx, cfg, nreq, tcp):
     try:
         for k in range(nreq):
             r = rng.random()
-            if r < 0.12:
+            if script is not None:
+                label, req = script[k]
+            elif r < 0.12:
                 req = extreme_write(rng, cfg)
                 label = 'extreme'
                 if req is None:
@@ -320,10 +322,29 @@ def flat(state):
             yield v
 
 
+def type_matrix(ctx):
+    """every (tag type, source type) pair once with small values, so that only the type pair decides: deterministic, not sampled"""
+    from vlib import refcodec as rc, arraymodel
+    from vlib import reqgen
+    types = list(reqgen.ALL_TYPES)          # the 13 element types the simulator supports (WORD/DWORD are not tag data types of this library)
+    cfg = [('T_' + t, t, 3, None) for t in types]
+    script = []
+    for name, t, n, _ in cfg:
+        for src in types:
+            v = 'a' if src in ('SSTRING', 'STRING') else 1.0 if src in ('REAL', 'LREAL') else 1
+            for vals in ([v], [v, v]):
+                req = {'path': {'segment': [{'symbolic': name}]}, 'write_tag': {'type': rc.NAME2CODE[src], 'elements': len(vals), 'data': list(vals)}}
+                script.append(('write' if arraymodel.can_hold(t, src) else 'write-type', req))
+    ctx.count('type-matrix:pairs', len(script) // 2)
+    run_history(ctx, cfg, len(script), False, script=script)
+
+
 def run(ctx):
     from vlib import reqgen
     rng = ctx.rng
     quick = ctx.tier == 'quick'
+    if ctx.shard == 0:
+        type_matrix(ctx)
     i = 0
     while not ctx.expired():
         i += 1
